@@ -47,7 +47,10 @@ BAD_HEADERS = [
 ]
 # payloads the statement does not name, which one protocol library may refuse while the other does not: wire clauses only
 EXOTIC_HEADERS = [("space-in-name", [(b"bad name", b"1")]), ("colon-in-name", [(b"x:a", b"1")]), ("upper-name", [(b"X-Upper", b"1")]),
-                  ("nonascii-val", [(b"x-a", b"caf\xc3\xa9")]), ("empty-name", [(b"", b"1")])]
+                  ("nonascii-val", [(b"x-a", b"caf\xc3\xa9")]), ("empty-name", [(b"", b"1")]),
+                  # headers that belong to one connection of one protocol: HTTP/2 has no place for them
+                  ("te-gzip", [(b"te", b"gzip")]), ("connection-keep-alive", [(b"connection", b"keep-alive")]),
+                  ("transfer-encoding-chunked", [(b"transfer-encoding", b"chunked")]), ("upgrade-h2c", [(b"upgrade", b"h2c")])]
 OK_HEADERS = [("bytearray", [(bytearray(b"x-a"), bytearray(b"1"))]), ("memoryview", [(b"x-a", memoryview(b"1"))]),
               ("long", [(b"x-a", b"v" * 5000)]), ("empty-val", [(b"x-a", b"")])]
 
@@ -107,6 +110,15 @@ def gen(rng, tier):
         seqs.append(("http", (8, 0, 4), (nm_, None)))
     seqs.append(("http", (7,), ("push-path-crlf", None)))
     seqs.append(("http", (0, 7, 4), ("push-path-crlf", None)))
+    seqs.append(("http", (7,), ("push-path-nonascii", None)))
+    seqs.append(("http", (0, 7, 4), ("push-path-nonascii", None)))
+    # a response start that is no final response head (1xx belongs to the early-hint message); a body that is not bytes
+    for base in ((0,), (0, 4), (0, 3, 4)):
+        seqs.append(("http", base, ("status-103", None)))
+        seqs.append(("http", base, ("status-100", None)))
+    for base in ((0, 3, 4), (0, 4), (3,)):
+        seqs.append(("http", base, ("body-int", None)))
+        seqs.append(("http", base, ("body-list", None)))
     wseqs = []
     for L in range(1, maxlen + 1):
         for combo in itertools.product(range(len(WS_ALPHABET)), repeat=L):
@@ -136,6 +148,17 @@ def gen(rng, tier):
                     elif sub[0] == "push-path-crlf" and nm == "P":
                         m["path"] = "/p\r\nx-evil: 2"
                         done_sub = True
+                    elif sub[0] == "push-path-nonascii" and nm == "P":
+                        m["path"] = "/caf\xe9"
+                        done_sub = True
+                    elif sub[0] in ("status-103", "status-100") and nm == "S":
+                        m["status"] = int(sub[0][-3:])
+                        done_sub = True
+                    elif sub[0] in ("body-int", "body-list") and nm in ("B", "BF"):
+                        m["body"] = 5 if sub[0] == "body-int" else [104, 105]
+                        done_sub = True
+                    elif sub[0] in ("push-path-nonascii", "status-103", "status-100", "body-int", "body-list"):
+                        pass
                     elif sub[0] in EH_LINKS and nm == "EH":
                         m["links"] = EH_LINKS[sub[0]]
                         done_sub = True
@@ -248,6 +271,8 @@ def _hdrs_exotic(headers):
         n = bytes(name)
         if n == b"" or n != n.lower() or b" " in n.strip() or b":" in n.strip()[1:] or any(c > 126 for c in n + bytes(value)):
             return True
+        if n.strip().lower() in (b"te", b"connection", b"transfer-encoding", b"upgrade", b"keep-alive", b"proxy-connection"):
+            return True  # headers of one connection of one protocol: HTTP/2 may refuse or drop them (wire clauses only)
     return False
 
 
@@ -274,7 +299,9 @@ def http_automaton(msgs, proto, te, final_state=False):
             verdict = "invalid"
         elif t == "http.response.start":
             if state == "REQUEST":
-                if _hdrs_ok(m.get("headers", [])):
+                if not (200 <= int(m.get("status", 200)) <= 999):
+                    verdict = "invalid"  # not a final response head (informational responses have a message of their own)
+                elif _hdrs_ok(m.get("headers", [])):
                     verdict = "valid"
                     state = "RESPONSE"
                     trailers_flag = bool(m.get("trailers"))
@@ -282,6 +309,8 @@ def http_automaton(msgs, proto, te, final_state=False):
                     verdict = "invalid"
             else:
                 verdict = "invalid"  # second response start
+        elif t == "http.response.body" and not isinstance(m.get("body", b""), (bytes, bytearray, memoryview)):
+            verdict = "invalid" if state in ("REQUEST", "RESPONSE") else "unjudged"  # a body that is not bytes
         elif t == "http.response.body":
             if state == "REQUEST":
                 verdict = "invalid"  # body before the response start
@@ -293,7 +322,7 @@ def http_automaton(msgs, proto, te, final_state=False):
                 verdict = "unjudged"
         elif t == "http.response.push":
             if proto == "h2":
-                if not isinstance(m.get("path"), str) or not _hdrs_ok(m.get("headers", [])) or _ctl(m["path"].encode("latin-1", "replace")):
+                if not isinstance(m.get("path"), str) or not _hdrs_ok(m.get("headers", [])) or _ctl(m["path"].encode("latin-1", "replace")) or not m["path"].isascii():
                     verdict = "invalid"
                 else:
                     verdict = "unjudged" if state not in ("REQUEST", "RESPONSE") else "valid"
